@@ -603,6 +603,18 @@ def run_property(prop, harnesses, tier, meta, only=None, workers=None, mem_total
     finally:
         scratch.destroy()
 
+    # string stubs' contract (checked natively by bin/setup): a failed contract makes every query that
+    # relies on precis_ascii / qs_plain inconclusive
+    stub_contract = None
+    try:
+        with open(os.path.join(CACHE, "stub_contract.json")) as f:
+            stub_contract = json.load(f)
+    except (OSError, ValueError):
+        pass
+    if stub_contract is not None and not stub_contract.get("ok") and any("precis_ascii" in " ".join(h.stubs) or "qs_plain" in " ".join(h.stubs) for h in hs):
+        out_lines.append("INCONCLUSIVE the native differential check of the string stubs' contract failed in bin/setup: %s" % stub_contract.get("tail", "")[-160:])
+        if exit_code != 1:
+            exit_code = 2
     wall = time.time() - t_start
     n_pass = sum(1 for r in results if r["status"] == "pass")
     viol = sum(1 for r in results if r.get("verdict") == "violation")
@@ -638,6 +650,7 @@ def run_property(prop, harnesses, tier, meta, only=None, workers=None, mem_total
             "known_findings_listed": [e["key"] for e in open_kf.values()],
             "generated": info if isinstance(info, dict) else {},
             "second_engine": extra_info,
+            "string_stub_contract": stub_contract if stub_contract is not None else "not checked (bin/setup was not run)",
         },
         "assumptions": meta.get("assumptions", []),
         "wall_s": round(wall, 2),
